@@ -132,7 +132,7 @@ func TestMain(m *testing.M) {
 	for _, s := range []string{"pkcs8pem", "pkcs8pem_pwd", "pubpem", "pkix", "hexpriv", "hexpub", "compress", "sigder", "cipherasn1"} {
 		R.Require(s+"/lz_d", s+"/lz_x", s+"/lz_y")
 	}
-	R.Require("cert_chain_file", "hex_odd", "pwd_wrong", "mismatch_negated_key", "X509KeyPair/match", "X509KeyPair/mismatch", "GMX509KeyPairs/match", "GMX509KeyPairs/mismatch", "GMX509KeyPairsSingle/match", "GMX509KeyPairsSingle/mismatch", "LoadX509KeyPair/match", "LoadGMX509KeyPair/match", "LoadGMX509KeyPairs/match")
+	R.Require("cert_chain_file", "hex_odd", "pwd_wrong", "mismatch_negated_key", "mismatch_embedded_point_of_certificate", "X509KeyPair/match", "X509KeyPair/mismatch", "GMX509KeyPairs/match", "GMX509KeyPairs/mismatch", "GMX509KeyPairsSingle/match", "GMX509KeyPairsSingle/mismatch", "LoadX509KeyPair/match", "LoadGMX509KeyPair/match", "LoadGMX509KeyPairs/match")
 	hx.Main(m, R)
 }
 
@@ -693,6 +693,19 @@ func TestC14_Loaders(t *testing.T) {
 					nd := new(big.Int).Sub(cv.N, k1.D)
 					keyPEM = sm2KeyPEM(t, gen.Key{D: nd, Pub: cv.Neg(k1.Pub)})
 					R.Class("mismatch_negated_key")
+				} else if rapid.Bool().Draw(t, "foreign_point") {
+					// the key file holds the OTHER key's scalar, but the optional public-key field inside it (SEC1
+					// ECPrivateKey.publicKey) repeats the certificate's point: the key of a key file is its scalar
+					blk, _ := pem.Decode(keyPEM)
+					if blk == nil {
+						t.Fatalf("harness: no PEM block in the key file")
+					}
+					forged := bytes.Replace(blk.Bytes, uncompressed(k2), uncompressed(k1), -1)
+					if bytes.Equal(forged, blk.Bytes) {
+						t.Fatalf("harness: embedded public key not found in the PKCS#8 key")
+					}
+					keyPEM = pemBlock(blk.Type, forged)
+					R.Class("mismatch_embedded_point_of_certificate")
 				}
 			default:
 				keyPEM = rapid.SampledFrom([][]byte{rsaKeyPEM(0, false), ecKeyPEM(0), rsaKeyPEM(1, true)}).Draw(t, "otherkey")
